@@ -48,7 +48,7 @@ def check_C04(c):
             continue
         missing = [int(u) for u, ok in p["ups_done"].items() if not ok]
         if missing:
-            embs = sorted(e for u, e in c.tasks[x].get("deps", []) if u in missing)
+            embs = sorted((e if isinstance(e, str) else e[0]) for u, e in c.tasks[x].get("deps", []) if u in missing)
             out.append(V("C04", "spawn-before-upstream-done", {"embedding": embs},
                          "job x=%d spawned at seq %d while upstream %s had no success marker" % (x, ev[0], missing)))
     return out
@@ -94,10 +94,17 @@ def check_C05(c):
                          % (x, ev[0], ev[2], m)))
     # (c) body executions never overlap, none after success
     running = defaultdict(int)
+    succeeded = {}
+    cleaned = {ev[5]["x"]: ev[0] for ev in c.by["cli-rmtree"] if ev[5].get("x") is not None}
     for ev in c.events:
         k = ev[4]
+        if k == "body-end" and ev[5]["outcome"] == "ok":
+            succeeded.setdefault(ev[5]["x"], ev[0])
         if k == "body-start":
             x = ev[5]["x"]
+            if x in succeeded and not (x in cleaned and cleaned[x] > succeeded[x]):
+                out.append(V("C05", "body-run-again-after-success", {},
+                             "body of x=%d started at seq %d although an execution had already completed successfully at seq %d" % (x, ev[0], succeeded[x])))
             if running[x] > 0:
                 out.append(V("C05", "body-overlap", {}, "two bodies of x=%d run at once (seq %d)" % (x, ev[0])))
             if ev[5].get("done"):
@@ -277,6 +284,32 @@ def expected_outcomes(c, pid):
         if ev[5].get("kind") == "job" and ev[5].get("done") and entered is not None and ev[0] < entered:
             pre_done.add(ev[5]["x"])
     exp = {}
+    spawn_of = {}
+    for ev in c.by["spawn"]:
+        if ev[2] == pid:
+            spawn_of[ev[5]["x"]] = ev[0]        # last launch by this scheduler
+    adopt_of = {}
+    for ev in c.by["state"]:
+        if ev[2] == pid and ev[5]["where"] == "aio_submit" and ev[5]["new"] == "RUNNING":
+            adopt_of.setdefault(ev[5]["x"], ev[0])
+
+    observed = {}     # (x, attempt) -> how that body execution ended
+    open_att = {}
+    for ev in c.events:
+        if ev[4] == "body-start":
+            open_att[(ev[2], ev[5]["x"])] = ev[5]["attempt"]
+        elif ev[4] == "body-end":
+            x_ = ev[5]["x"]
+            key = next((k for k in open_att if k[1] == x_ and (k[0] == ev[2] or ev[2] == 0)), None)
+            if key is not None:
+                observed[(x_, open_att.pop(key))] = ev[5]["outcome"]
+
+    def attempt_outcome(x, att):
+        if (x, att) in observed:
+            return "DONE" if observed[(x, att)] == "ok" else "ERROR"
+        outs = c.tasks[x].get("out") or ["ok"]
+        o = outs[min(max(att, 0), len(outs) - 1)]
+        return "DONE" if o == "ok" else "ERROR"
 
     def get(x):
         if x in exp:
@@ -288,11 +321,20 @@ def expected_outcomes(c, pid):
             if get(u)[0] == "ERROR":
                 exp[x] = ("ERROR", False)
                 return exp[x]
-        att = sum(1 for ev in c.by["body-start"] if ev[5]["x"] == x and entered is not None and ev[0] < entered)
-        outs = c.tasks[x].get("out") or ["ok"]
-        o = outs[min(att, len(outs) - 1)]
-        killed = any(jf["x"] == x and jf.get("attempt", 0) == att for jf in c.scn.get("jobfaults", []))
-        exp[x] = ("DONE" if (o == "ok" and not killed) else "ERROR", True)
+        if x in spawn_of:
+            # the attempt this scheduler launched itself
+            att = sum(1 for ev in c.by["body-start"] if ev[5]["x"] == x and ev[0] < spawn_of[x])
+            exp[x] = (attempt_outcome(x, att), True)
+        elif x in adopt_of:
+            # a process of an earlier run was adopted: its attempt decides
+            att = sum(1 for ev in c.by["body-start"] if ev[5]["x"] == x and ev[0] < adopt_of[x]) - 1
+            res = attempt_outcome(x, att)
+            if res == "ERROR" and any(ev[5]["x"] == x and ev[5]["outcome"] == "ok" for ev in c.by["body-end"]):
+                res = "DONE"      # (it had already completed when it was looked at)
+            exp[x] = (res, True)
+        else:
+            att = sum(1 for ev in c.by["body-start"] if ev[5]["x"] == x and entered is not None and ev[0] < entered)
+            exp[x] = (attempt_outcome(x, att), True)
         return exp[x]
 
     for x in submitted:
@@ -327,7 +369,8 @@ def check_C07(c):
                     out.append(V("C07", "dependent-of-failed-not-error", {"result": res}, "x=%d: ancestor failed but final result is %s" % (x, res)))
             elif launched:
                 if x not in spawned[pid] and not _adopted(c, pid, x):
-                    out.append(V("C07", "independent-job-not-run", {"result": res}, "x=%d has no failed ancestor but was never launched by pid %d (result %s)" % (x, pid, res)))
+                    if res != "DONE":       # (DONE without a launch: somebody else completed it meanwhile)
+                        out.append(V("C07", "independent-job-not-run", {"result": res}, "x=%d has no failed ancestor but was never launched by pid %d (result %s)" % (x, pid, res)))
                 elif res != st:
                     out.append(V("C07", "independent-job-wrong-result", {"expected": st, "result": res}, "x=%d: expected %s, got %s" % (x, st, res)))
         for ev in c.by["xp-exit"]:
@@ -486,6 +529,17 @@ def check_C11(c):
                 if j["result"] != "DONE":
                     out.append(V("C11", "restart-wrong-result", {"result": str(j["result"])[:40]},
                                  "x=%s: final result %s in the restarted experiment" % (x, j["result"])))
+    # same final results: a job reported DONE has its success marker (nothing cleans in this profile)
+    markers = c.final.get("markers") or {}
+    for i, pr in sorted(c.final["procs"].items()):
+        if pr["kind"] != "sched" or pr["pid"] in c.crashed or pr["hung"]:
+            continue
+        for x, j in pr.get("jobs", {}).items():
+            if j["result"] == "DONE" and markers.get(x) is False:
+                out.append(V("C11", "done-without-success-marker", {"adopted": _adopted(c, pr["pid"], int(x))},
+                             "x=%s is DONE for pid %d but no success marker exists (adopted=%s)" % (x, pr["pid"], _adopted(c, pr["pid"], int(x)))))
+    for v in check_C04(c):
+        out.append(V("C11", "launched-before-upstream-done", v["sig"], v["detail"]))
     if not c.final["jobs_alive"]:
         for name, files in c.final["tokfiles"].items():
             if files:
@@ -518,6 +572,12 @@ def check_C16(c):
             runs[ev[2]]["linked"].add(ev[5]["x"])
     for ev in c.by["xp-exit"]:
         runs[ev[2]]["ended"] = ev[0]
+    for ev in c.by["funlock"]:
+        # the experiment is left when its lock is released (the exit event is logged later)
+        r = runs.get(ev[2])
+        if r is not None and r["entered"] is not None and ev[0] > r["entered"] and ev[5]["path"].endswith("/xp/%s/lock" % r["xp"]):
+            if r["ended"] is None or ev[0] < r["ended"]:
+                r["ended"] = ev[0]
     for ev in c.by["proc-killed"]:
         if ev[5]["pid"] in runs and runs[ev[5]["pid"]]["ended"] is None:
             runs[ev[5]["pid"]]["ended"] = ev[0]
@@ -582,7 +642,13 @@ def check_C16(c):
             out.append(V("C16", "protected-job-unindexed", {"when": when},
                          "experiment %s at seq %d (%s): jobs %s of the last completed plan / begun by an aborted run are in neither index (jobs=%s, bak=%s)"
                          % (xp, seq, when, missing, sorted(snap.get("jobs") or []), None if snap.get("jobs.bak") is None else sorted(snap["jobs.bak"]))))
-        if when == "exit" and pid in runs and runs[pid]["completed"] and not any(e[2] == pid for e in c.by["user-raise"]):
+        successor = False
+        if when == "exit":
+            # another process may already hold the experiment when the snapshot is taken
+            rel_seq = max([ev[0] for ev in c.by["funlock"] if ev[2] == pid and ev[5]["path"].endswith("/xp/%s/lock" % xp) and ev[0] < seq] or [seq])
+            successor = any(ev[2] != pid and ev[5]["xp"] == xp and rel_seq < ev[0] < seq for ev in c.by["xp-enter-call"] + c.by["xp-entered"]) \
+                or any(ev[2] != pid and ev[5]["path"].endswith("/xp/%s/lock" % xp) and rel_seq < ev[0] < seq for ev in c.by["flock"])
+        if when == "exit" and not successor and pid in runs and runs[pid]["completed"] and not any(e[2] == pid for e in c.by["user-raise"]):
             r = runs[pid]
             want = {rels[x] for x in r["submitted"] if rels.get(x)}
             got = set(snap.get("jobs") or [])
@@ -650,7 +716,19 @@ def check_C19(c):
         stable = not [p for p in before["busy"] if p != call[2]] and not [p for p in after["busy"] if p != call[2]]
         for ev in rms:
             p = ev[5]
-            if p["alive"]:
+            b = before["jobs"].get(p["rel"]) or {}
+            started_finished = b.get("state") in ("DONE", "ERROR") and not b.get("alive")
+            relaunched = cmd == "jobs-clean" and started_finished and (p["alive"] or p["state"] not in ("DONE", "ERROR"))
+            if relaunched:
+                # finished and idle when the command read its state, relaunched by a scheduler before the rmtree
+                out.append(V("C19", "relaunched-job-removed", {"cmd": cmd},
+                             "`%s` removed %s (x=%s): finished when the command started, relaunched meanwhile (process %s, markers %s at removal)"
+                             % (desc, p["rel"], p["x"], p["alive"], p["markers"])))
+                continue
+            finishing = bool(p["alive"]) and all(ph == "after-body" for ph in p.get("phases") or ["?"]) and p["state"] in ("DONE", "ERROR")
+            if p["alive"] and not finishing:
+                # (a process that has written its end-of-job marker and is only cleaning up is finished
+                # by the documented state rules)
                 out.append(V("C19", "running-job-removed", {"cmd": cmd, "markers": p["markers"]},
                              "`%s` removed %s (x=%s) while its process %s was running (markers %s)" % (desc, p["rel"], p["x"], p["alive"], p["markers"])))
             if cmd == "jobs-clean":
